@@ -212,8 +212,13 @@ def expected(world, cur, attr, op):
         new = dict(content)
         if verb == "with":
             if len(args) < 2:
-                return None
-            el = make(args[1], kwv)
+                if not (spec_elem and not keyed and kwv):
+                    return None
+                # "keywords build ... the element": with_<item>(key, **keywords) assigns a freshly built element to the key,
+                # whatever the key held before (updating what is there is update_<item>'s job)
+                el = make(MISSING, kwv)
+            else:
+                el = make(args[1], kwv)
         elif key not in content:
             return "raise", MISSING_TARGET
         elif verb == "without":
@@ -402,6 +407,13 @@ def case_strategy(draw):
         # the very same (unkeyed) element object at several positions / keys: an element helper edits the addressed slot only
         hist.append({"t": "set", "attr": attr, "v": ["$alias", attr, 2 + src.choice(2)]})
     probe = ops.gen_element_call(src, info, None, attr, src.pick([False, False, True]), (0, 1))
+    if T[0] == "dict" and T[-1] == ["spec", "U"] and src.chance(1, 4):
+        # a key whose element differs from a default-built one in BOTH attributes, then with_<item>(key, <one keyword>) without a
+        # value: the key gets a freshly built element (the other attribute is back at its default), not the old one updated
+        key = src.pick(grammar.KEYS)
+        hist.append({"t": "call", "m": f"with_{grammar.SINGULAR[attr]}", "a": [key, ["spec", "U", {"a": 3 + src.choice(3), "b": src.pick(["zz", "q"])}]], "k": {"_inplace": True}})
+        kw = {"a": src.pick([7, 0])} if src.chance(1, 2) else {"b": src.pick(["n", ""])}
+        probe = {"t": "call", "m": f"with_{grammar.SINGULAR[attr]}", "a": [key], "k": dict(kw, _inplace=src.chance(1, 2))}
     return {"world": wd, "ops": hist, "probe": probe, "attr": attr}
 
 
